@@ -2,26 +2,35 @@
 
 Every (f, f_) method pair of the tensor / network / 1D / 2D / 3D / arbitrary-geometry classes
 is discovered by reflection (a trailing-underscore attribute that is a
-`functools.partialmethod(..., inplace=True)` and whose plain spelling exists).  For each pair
-that has an entry in the hand written argument table the *real* methods are run on small
-receivers whose numerical entries are symbols (complex conj-pair symbols for LAPACK-free
-methods, real symbols where a LAPACK contract stub is reached) and three families of goals
-are stated:
+`functools.partialmethod(..., inplace=True)` and whose plain spelling exists), both as defined
+on a class and as *visible* on its subclasses through the MRO (a subclass that overrides `f`
+but inherits `f_` bound to the base class function).  For each pair the *real* methods are run
+with hand written argument tuples on small receivers whose numerical entries are symbols
+(complex conj-pair symbols for LAPACK-free methods, real symbols - complex in the thorough
+tier - where a LAPACK contract stub is reached) and three families of goals are stated:
 
- (i)   non-mutation: a deep fingerprint (labels, tags, left_inds, shapes, maps, exponent, class,
-       extra properties, identity of every data array and a copy of its content) of the receiver,
-       of a copy taken before the call (copies share their arrays by design) and of every
-       tensor / network / array argument is identical before and after the plain call;
- (ii)  f(x) and f_(copy(x)) are the same labelled object (labels, tags, stored arrays, dense value
-       over the outer labels; randomly named new bonds are canonicalised);
+ (i)   non-mutation: a deep fingerprint (labels, tags, left_inds, shapes, tensor / index / tag
+       maps, exponent, class, extra properties, identity of every data array and a copy of its
+       content) of the receiver, of a copy taken before the call (copies share their arrays by
+       design) and of every tensor / network / array argument is identical before and after the
+       plain call; the network a copy was taken from is intact after f_(copy);
+ (ii)  f(x) and f_(copy(x)) are the same labelled object (labels, tags, left_inds, stored arrays
+       tensor by tensor; randomly named new bonds are canonicalised by the tensors they join);
  (iii) f(pi . x) is the same labelled object as f(x) for stored-axis permutations pi of every
-       tensor of the receiver and of every tensor / network argument (all 6 permutations for a
-       rank-3 Tensor receiver, reversal / roll / mixed for networks), and for a reversed
-       insertion order of the tensors of a plain network (dense value only).
+       tensor of the receiver and of every tensor / network argument (all permutations for a
+       rank-3 Tensor receiver, reversal / roll / mixed for networks; arrays compared tensor by
+       tensor after alignment by label, or as dense values over the outer labels for gauge
+       dependent QR / SVD based results), and for a reversed insertion order of the tensors of a
+       plain network (dense value);
+ (iv)  the binary operators of Tensor and TensorNetwork: value aligned / broadcast by label ==
+       explicit elementwise reference for every pair of stored orders, operands intact, the
+       documented in-place operators never write into arrays shared with copies.
 
 Methods the symbolic engine cannot run (RNG, dtype casts, iterative / truncating gauging and
 compression, value dependent simplifications) are run on concrete float data inside the same
-harness (the goals are then concrete assertions); they are reported separately in META.
+harness (the goals are then concrete assertions); they are listed separately in META.  Every
+obligation is also re-run numerically on random float / complex data (fingerprints then compare
+bytes).
 """
 import functools
 import inspect
@@ -33,7 +42,6 @@ import zlib
 import numpy as np
 import scipy.linalg as scla
 
-import quimb as qu
 import quimb.tensor as qtn
 from quimb.tensor import tensor_core as tc
 from quimb.tensor.tnag import core as cg
@@ -42,8 +50,8 @@ from quimb.tensor.tn2d import core as c2
 from quimb.tensor.tn3d import core as c3
 
 from qv import poly as P
-from qv import ref, stubs
-from qv.harness import obligation, Skip
+from qv import ref
+from qv.harness import obligation
 
 PROP = "C03"
 
@@ -53,12 +61,19 @@ PROP = "C03"
 
 
 def _all_classes():
+    """Tensor, TensorNetwork and every subclass quimb.tensor defines (tensor_core, tnag, tn1d, tn2d, tn3d, mera)"""
     out = []
-    for mod in (tc, cg, c1, c2, c3):
-        for _, cls in vars(mod).items():
-            if inspect.isclass(cls) and cls.__module__ == mod.__name__ and issubclass(cls, (tc.Tensor, tc.TensorNetwork)):
-                if cls not in out:
-                    out.append(cls)
+
+    def walk(c):
+        if c not in out and c.__module__.startswith("quimb."):
+            out.append(c)
+        for sub in c.__subclasses__():
+            walk(sub)
+
+    walk(tc.Tensor)
+    walk(tc.TensorNetwork)
+    order = [m.__name__ for m in (tc, cg, c1, c2, c3)]
+    out.sort(key=lambda c: (order.index(c.__module__) if c.__module__ in order else len(order)))
     return out
 
 
@@ -110,6 +125,43 @@ def reflect():
 PAIRS, EXCLUDED = reflect()
 CLS = {c.__name__: c for c in CLASSES}
 
+
+def _resolved(v):
+    """(function, other bound keywords) behind a method or partialmethod"""
+    if isinstance(v, functools.partialmethod):
+        return v.func, {k: w for k, w in v.keywords.items() if k != "inplace"}
+    return v, {}
+
+
+def reflect_inherited():
+    """pairs as *visible* on every class (through the MRO) whose two spellings resolve to different
+    functions: a subclass overrides `f` but inherits `f_ = partialmethod(<base class f>, inplace=True)`
+    (or the reverse).  -> [(class, plain name, class providing f_, class providing f)], one entry per
+    distinct (function behind f_, function behind f)."""
+    out, seen = [], set()
+    for cls in CLASSES:
+        names = set()
+        for c in cls.__mro__:
+            names.update(k for k, v in c.__dict__.items() if _is_inplace_partial(v) and k.endswith("_"))
+        for k in sorted(names):
+            v, pv = _lookup(cls, k), _lookup(cls, k[:-1])
+            if pv is None or not _is_inplace_partial(v) or _is_inplace_partial(pv):
+                continue
+            (f_, kw_), (f, kw) = _resolved(v), _resolved(pv)
+            if f_ is f and kw_ == kw:
+                continue
+            key = (id(f_), id(f))
+            if key in seen:
+                continue
+            seen.add(key)
+            own_ = next(c.__name__ for c in cls.__mro__ if k in c.__dict__)
+            own = next(c.__name__ for c in cls.__mro__ if k[:-1] in c.__dict__)
+            out.append((cls.__name__, k[:-1], own_, own))
+    return out
+
+
+MIXED = reflect_inherited()
+
 # ======================================================================================
 # helper context: symbolic or concrete data, goals that work in both
 # ======================================================================================
@@ -129,7 +181,7 @@ class HX:
         self.concrete = concrete
         self.kind = kind
         self.cache = {}
-        self.known = set()      # label names that are not random
+        self.want_dense = False     # also compare dense values when the stored arrays were compared
 
     @property
     def symbolic(self):
@@ -450,9 +502,9 @@ def _perm_for(rank, how, k=0):
         return tuple(reversed(range(rank)))
     if how == "roll":
         return tuple(range(1, rank)) + (0,)
-    if how == "mixed":
+    if how.startswith("mixed"):
         ps = list(itertools.permutations(range(rank)))[1:]
-        return ps[(2 * k + 1) % len(ps)]
+        return ps[(2 * k + 1 + 3 * int(how[5:] or 0)) % len(ps)]
     raise ValueError(how)
 
 
@@ -542,7 +594,7 @@ for _n, _f in (("T3", R_T3), ("T3sq", R_T3sq), ("T1", R_T1), ("Trep", R_Trep), (
 class Case:
     def __init__(self, cls, method, recv, argsf=None, *, tag="", sym=True, kind=None, ref=None, det=True,
                  perms=True, cmp="exact", pcmp=None, tiers=("quick", "thorough"), heavy=False, opts=None,
-                 permute_args=True, why="", pdata=True):
+                 permute_args=True, why="", pdata=True, own=False):
         self.cls = cls
         self.method = method
         self.recv = recv
@@ -559,7 +611,8 @@ class Case:
         # are only defined up to a gauge on the inner bonds)
         self.pcmp = pcmp or ("labelled" if (sym and not heavy) else "gauge")
         self.tiers = tiers
-        self.heavy = heavy        # own obligation (LAPACK stubs -> certificates)
+        self.heavy = heavy        # reaches LAPACK stubs (certificates modulo their contracts): own obligation
+        self.own = own or heavy   # one obligation for this case alone
         self.opts = opts or {}
         self.permute_args = permute_args
         self.why = why            # why concrete only
@@ -588,7 +641,7 @@ case("Tensor", "isel", "T3", A({"b": 1}), tag="int")
 case("Tensor", "isel", "T3", A({"c": slice(0, 2), "a": 0, "zz": 1}), tag="slice+int+absent")
 case("Tensor", "isel", "T3", A({"c": "r"}), tag="random", sym=False, det=False, why="draws a random vector")
 case("Tensor", "new_ind_pair_with_identity", "T3", A("l", "r", 2))
-case("Tensor", "new_ind_pair_diag", "T3", A("b", "l", "r"), sym=False, why="zeros(like=object array) is a float array")
+case("Tensor", "new_ind_pair_diag", "T3", A("b", "l", "r"))
 case("Tensor", "conj", "T3")
 case("Tensor", "transpose", "T3", A("c", "a", "b"))
 case("Tensor", "transpose", "T3", A("a", "b", "c"), tag="identity")
@@ -626,6 +679,7 @@ case("Tensor", "isometrize", "T3sq", A(), kind="real", heavy=True, tag="own-left
 case("Tensor", "isometrize", "T3", A(("c",), method="svd"), sym=False, tag="svd", why="concrete run of the svd route")
 case("Tensor", "isometrize", "T422", A(("a",)), kind="real", heavy=True, tag="qr,two-right-labels")
 case("Tensor", "isometrize", "T422", A(("a",), method="svd"), sym=False, tag="svd,two-right-labels", why="concrete run of the svd route")
+case("Tensor", "isometrize", "T3", A(("a",), method="exp"), sym=False, own=True, tag="exp,two-right-labels", why="matrix exponential route")
 case("Tensor", "isometrize", "T3", A(("a", "b", "c")), kind="real", heavy=True, tag="vector")
 case("Tensor", "randomize", "T3", A(seed=3), sym=False, pdata=False, why="random entries (seeded): fills the stored array positionally")
 case("Tensor", "astype", "T3", A("complex64"), sym=False, kind="real", why="dtype cast of an object array")
@@ -775,7 +829,7 @@ case("TensorNetwork", "compress_all", "TN3", A(max_bond=1), sym=False, tag="max_
 case("TensorNetwork", "compress_all_tree", "TNC", sym=False, why=_W)
 case("TensorNetwork", "compress_all_1d", "TNC", sym=False, why=_W)
 case("TensorNetwork", "compress_all_simple", "TN3", A(max_bond=2), sym=False, why=_W)
-case("TensorNetwork", "canonize_around", "TN3", A("A"), sym=False, tag="loop", why=_W)
+case("TensorNetwork", "canonize_around", "TN3", A("A"), tag="loop", kind="real", heavy=True, ref="preserve")
 case("TensorNetwork", "gauge_all_canonize", "TN3", sym=False, why=_W)
 case("TensorNetwork", "gauge_all_simple", "TN3", A(max_iterations=20), sym=False, why=_W)
 case("TensorNetwork", "gauge_all_belief_propagation", "TN3", A(max_iterations=20), sym=False, why=_W)
@@ -784,12 +838,12 @@ case("TensorNetwork", "gauge_all", "TN3", sym=False, why=_W)
 case("TensorNetwork", "gauge_all", "TN3", A("simple"), sym=False, tag="simple", why=_W)
 case("TensorNetwork", "gauge_local", "TN3", A("A"), sym=False, why=_W)
 case("TensorNetwork", "contract_around", "TN3", A("A"), sym=False, why=_W)
-case("TensorNetwork", "contract_compressed", "TN3", A("greedy", max_bond=4), sym=False, why=_W, cmp="value", pcmp="value")
+case("TensorNetwork", "contract_compressed", "TN3", A("greedy", max_bond=4), cmp="value", pcmp="value")
 case("TensorNetwork", "insert_compressor_between_regions", "TNM", A(["A"], ["B"], max_bond=4), sym=False, why=_W)
 case("TensorNetwork", "randomize", "TN3", A(seed=3), sym=False, pdata=False, why="random entries (seeded): fills the stored arrays positionally",
      opts={"reinsert": False})
 case("TensorNetwork", "balance_bonds", "TN3", sym=False, why=_W)
-case("TensorNetwork", "isometrize", "TNL", A("svd"), sym=False, tag="svd", why="svd route")
+case("TensorNetwork", "isometrize", "TNL", A("svd"), tag="svd", kind="real", heavy=True)
 case("TensorNetwork", "diagonal_reduce", "TN3", sym=False, why="value dependent structure detection")
 case("TensorNetwork", "antidiag_gauge", "TN3", sym=False, why="value dependent structure detection")
 case("TensorNetwork", "column_reduce", "TN3", sym=False, why="value dependent structure detection")
@@ -933,7 +987,7 @@ case("TensorNetworkGen", "retag_all", "TNGV", A("T{}"))
 case("TensorNetworkGen", "flatten", "TNG2")
 case("TensorNetworkGen", "flatten", "TNG2", A(fuse_multibonds=False), tag="nofuse")
 case("TensorNetworkGen", "align", "TNGV", lambda hx, x: ((_genop(hx, "X"), qtn.TN_from_edges_and_fill_fn(_fill(hx, "Z"), _TRI, 2, phys_dim=2)), {}),
-     opts={"returns_self": False})
+     opts={"returns_self": False, "args_intact_inplace": False})   # align_ acts in place on every network it is given (documented)
 case("TensorNetworkGenVector", "reindex_sites", "TNGV", A("b{}", where=[0, 2]))
 case("TensorNetworkGenVector", "reindex_all", "TNGV", A("c{}"))
 case("TensorNetworkGenVector", "gate_with_op_lazy", "TNGV", lambda hx, x: ((_genop(hx, "X"),), {}))
@@ -988,16 +1042,15 @@ case("TensorNetwork1DFlat", "canonicalize", "MPS3", A(1, cur_orthog=None), kind=
 case("TensorNetwork1DFlat", "canonicalize", "MPS3", A(1), sym=False, tag="calc", why="numerical detection of the current centre (allclose)")
 case("TensorNetwork1DFlat", "swap_sites_with_compress", "MPS3", A(0, 1, cutoff=0.0), kind="real", heavy=True)
 case("TensorNetwork1DFlat", "swap_site_to", "MPS3", A(0, 2, cutoff=0.0), kind="real", heavy=True, tiers=("thorough",))
-case("TensorNetwork1DFlat", "swap_site_to", "MPS3", A(2, 0), sym=False, tag="default-cutoff", why="truncating split")
-
+case("TensorNetwork1DFlat", "swap_site_to", "MPS3", A(2, 0), tag="default-cutoff", kind="real", heavy=True)
 case("MatrixProductState", "add_MPS", "MPS3", _mps_other)
 case("MatrixProductState", "gate_split", "MPS3", lambda hx, x: ((_G(2)(hx, x), (0, 1)), {"cutoff": 0.0}), kind="real", heavy=True)
 case("MatrixProductState", "gate_with_auto_swap", "MPS3", lambda hx, x: ((_G(2)(hx, x), (2, 0)), {"cutoff": 0.0}), kind="real", heavy=True,
      tiers=("thorough",))
 case("MatrixProductState", "gate_with_auto_swap", "MPS3", lambda hx, x: ((_G(2)(hx, x), (2, 0)), {}), sym=False, tag="default-cutoff", why="truncating split")
 case("MatrixProductState", "gate_with_submpo", "MPS3", lambda hx, x: _submpo_arg(hx, x, method="lazy"), tag="lazy")
-case("MatrixProductState", "gate_with_submpo", "MPS3", lambda hx, x: _submpo_arg(hx, x, cutoff=0.0), sym=False, why="1D compression driver")
-case("MatrixProductState", "gate_with_mpo", "MPS3", lambda hx, x: _mpo_arg(hx, x), sym=False, why="1D compression driver")
+case("MatrixProductState", "gate_with_submpo", "MPS3", lambda hx, x: _submpo_arg(hx, x, cutoff=0.0), kind="real", heavy=True, tag="direct")
+case("MatrixProductState", "gate_with_mpo", "MPS3", lambda hx, x: _mpo_arg(hx, x), kind="real", heavy=True, tag="direct")
 case("MatrixProductState", "gate_with_mpo", "MPS3", lambda hx, x: _mpo_arg(hx, x, transpose=True, method="zipup"), sym=False, tag="zipup,transpose",
      why="1D compression driver")
 case("MatrixProductState", "gate_nonlocal", "MPS3", lambda hx, x: ((_G(2)(hx, x), (0, 2)), {}), sym=False, why="gate split + 1D compression driver")
@@ -1007,20 +1060,20 @@ case("MatrixProductState", "measure", "MPS3", lambda hx, x: ((2,), {"outcome": 0
 case("MatrixProductState", "measure", "MPS3", lambda hx, x: ((0,), {"seed": 11}), sym=False, tag="sampled", why="random outcome (seeded)")
 
 case("MatrixProductOperator", "add_MPO", "MPO3", lambda hx, x: _mpo_arg(hx, x))
-case("MatrixProductOperator", "fill_empty_sites", "MPO3gap", sym=False, why="identity arrays created with the (object) dtype of the data")
-case("MatrixProductOperator", "fill_empty_sites", "MPO3gap", A(mode="minimal"), sym=False, tag="minimal", why="identity arrays created with the dtype of the data")
+case("MatrixProductOperator", "fill_empty_sites", "MPO3gap")
+case("MatrixProductOperator", "fill_empty_sites", "MPO3gap", A(mode="minimal"), tag="minimal")
 case("MatrixProductOperator", "gate_sandwich_with_auto_swap", "MPO3", lambda hx, x: ((_G(2)(hx, x), (0, 1)), {}), sym=False, why="truncating split")
 
 case("TensorNetwork2D", "flatten", "TN2D22x2")
 _W2 = "boundary contraction / coarse graining with compression"
-case("TensorNetwork2D", "contract_boundary_from", "TN2D33", A((0, 1), (0, 2), "xmin", max_bond=4), sym=False, why=_W2)
-case("TensorNetwork2D", "contract_boundary_from_xmin", "TN2D33", A((0, 1), max_bond=4), sym=False, why=_W2)
+case("TensorNetwork2D", "contract_boundary_from", "TN2D33", A((0, 1), (0, 2), "xmin", max_bond=4), kind="real", heavy=True)
+case("TensorNetwork2D", "contract_boundary_from_xmin", "TN2D33", A((0, 1), max_bond=4), kind="real", heavy=True)
 case("TensorNetwork2D", "contract_boundary_from_xmax", "TN2D33", A((2, 1), max_bond=4), sym=False, why=_W2)
-case("TensorNetwork2D", "contract_boundary_from_ymin", "TN2D33", A((0, 1), max_bond=4), sym=False, why=_W2)
-case("TensorNetwork2D", "contract_boundary_from_ymax", "TN2D33", A((2, 1), max_bond=4, mode="full-bond"), sym=False, why=_W2)
-case("TensorNetwork2D", "contract_boundary", "TN2D33", A(max_bond=4), sym=False, why=_W2, cmp="value", pcmp="value")
-case("TensorNetwork2D", "contract_boundary", "TN2D33", A(max_bond=4, final_contract=False), sym=False, tag="no-final", why=_W2)
-case("TensorNetwork2D", "contract_mps_sweep", "TN2D33", A(max_bond=4, direction="xmin"), sym=False, why=_W2, cmp="value", pcmp="value")
+case("TensorNetwork2D", "contract_boundary_from_ymin", "TN2D33", A((0, 1), max_bond=4), kind="real", heavy=True)
+case("TensorNetwork2D", "contract_boundary_from_ymax", "TN2D33", A((2, 1), max_bond=4, mode="full-bond"), kind="real", heavy=True)
+case("TensorNetwork2D", "contract_boundary", "TN2D33", A(max_bond=4), kind="real", heavy=True, cmp="value", pcmp="value")
+case("TensorNetwork2D", "contract_boundary", "TN2D33", A(max_bond=4, final_contract=False), tag="no-final", kind="real", heavy=True)
+case("TensorNetwork2D", "contract_mps_sweep", "TN2D33", A(max_bond=4, direction="xmin"), kind="real", heavy=True, cmp="value", pcmp="value")
 case("TensorNetwork2D", "coarse_grain_hotrg", "TN2D33", A("x", max_bond=4), sym=False, why=_W2)
 case("TensorNetwork2D", "contract_hotrg", "TN2D33", A(max_bond=4), sym=False, why=_W2, cmp="value", pcmp="value")
 case("TensorNetwork2D", "contract_ctmrg", "TN2D33", A(max_bond=4), sym=False, why=_W2, cmp="value", pcmp="value")
@@ -1038,14 +1091,68 @@ case("PEPS", "add_PEPS", "PEPS22", lambda hx, x: ((qtn.PEPS.from_fill_fn(_fill(h
 case("PEPO", "add_PEPO", "PEPO22", lambda hx, x: ((qtn.PEPO.from_fill_fn(_fill(hx, "Q"), 2, 2, 2, phys_dim=2),), {}))
 
 _W3 = "3D boundary contraction / coarse graining with compression"
-case("TensorNetwork3D", "flatten", "TN3D221x2", sym=False, why="kept concrete for size")
+case("TensorNetwork3D", "flatten", "TN3D221x2")
 case("TensorNetwork3D", "contract_boundary_from", "TN3D222", A((0, 1), (0, 1), (0, 1), "xmin", max_bond=4), sym=False, why=_W3)
-case("TensorNetwork3D", "contract_boundary", "TN3D222", A(max_bond=4), sym=False, why=_W3, cmp="value", pcmp="value")
-case("TensorNetwork3D", "contract_ctmrg", "TN3D222", A(max_bond=4), sym=False, why=_W3, cmp="value", pcmp="value")
+case("TensorNetwork3D", "contract_boundary", "TN3D222", A(max_bond=4), cmp="value", pcmp="value")
+case("TensorNetwork3D", "contract_ctmrg", "TN3D222", A(max_bond=4), cmp="value", pcmp="value")
 case("TensorNetwork3D", "coarse_grain_hotrg", "TN3D222", A("x", max_bond=4), sym=False, why=_W3)
-case("TensorNetwork3D", "contract_hotrg", "TN3D222", A(max_bond=4), sym=False, why=_W3, cmp="value", pcmp="value")
+case("TensorNetwork3D", "contract_hotrg", "TN3D222", A(max_bond=4), cmp="value", pcmp="value")
 case("TensorNetwork3DVector", "gate", "PEPS3D", lambda hx, x: ((_G(1)(hx, x), (0, 1, 0)), {"contract": True}))
 case("TensorNetwork3DVector", "gate", "PEPS3D", lambda hx, x: ((_G(2)(hx, x), ((0, 0, 0), (1, 0, 0))), {}), tag="two,lazy")
+
+
+# ------------------------------------------------------------------------------ inherited pairs whose spellings differ
+# (see reflect_inherited): the subclass overrides the plain spelling, the in-place spelling is the
+# base class partialmethod.  Tested on the subclass; the plain spelling of expand_bond_dimension
+# defaults to inplace=True (documented), so it is called with an explicit inplace=False.
+
+
+@receiver("ISO")
+def R_ISO(hx):
+    """rank-3 IsoTensor with left_inds ('a',)"""
+    return tc.IsoTensor(hx.arr("T", (2, 2, 3)), ("a", "b", "c"), tags=["T", "X"], left_inds=("a",))
+
+
+case("MatrixProductState", "expand_bond_dimension", "MPS3", A(3), own=True, opts={"plain_kw": {"inplace": False}, "mixed": True})
+case("MatrixProductOperator", "expand_bond_dimension", "MPO3", A(3), own=True, opts={"plain_kw": {"inplace": False}, "mixed": True})
+case("PEPS", "expand_bond_dimension", "PEPS22", A(3), own=True, opts={"plain_kw": {"inplace": False}, "mixed": True})
+case("MatrixProductState", "flip", "MPS3", own=True, opts={"mixed": True})
+case("IsoTensor", "fuse", "ISO", A({"ab": ("a", "b")}), own=True, opts={"mixed": True})
+case("IsoTensor", "fuse", "ISO", A({"bc": ("b", "c")}), own=True, tag="left-kept", opts={"mixed": True})
+case("PEPS3D", "reindex_sites", "PEPS3D", A("b{},{},{}", where=[(0, 0, 0), (1, 1, 0)]), own=True, opts={"mixed": True})
+
+
+# ------------------------------------------------------------------------------ thorough-only variants
+
+
+@receiver("TN3e")
+def R_TN3e(hx):
+    """the loop network with a symbolic stored exponent"""
+    tn = R_TN3(hx)
+    e = hx.scalar("e", "real")
+    tn.exponent = e if hx.symbolic else float(np.real(e))
+    return tn
+
+
+def _thorough_variants():
+    import copy
+    extra = []
+    for cs in CASES:
+        if "quick" not in cs.tiers or cs.opts.get("mixed"):
+            continue
+        if cs.recv == "TN3" and cs.sym and not cs.heavy:
+            c2 = copy.copy(cs)
+            c2.recv, c2.tag, c2.tiers = "TN3e", (cs.tag + "," if cs.tag else "") + "symbolic-exponent", ("thorough",)
+            extra.append(c2)
+        if cs.sym and cs.heavy and cs.kind == "real" and cs.name not in _NO_CPLX:
+            c2 = copy.copy(cs)
+            c2.kind, c2.tag, c2.tiers = "cplx", (cs.tag + "," if cs.tag else "") + "complex", ("thorough",)
+            extra.append(c2)
+    CASES.extend(extra)
+
+
+_NO_CPLX = set()
+_thorough_variants()
 
 # ======================================================================================
 # the generic harness for one case
@@ -1164,16 +1271,15 @@ def _guarded_plain_call(hx, label, x, method, args, kwargs, with_copy=True):
 
 def _perm_list(x, tier):
     if isinstance(x, tc.TensorNetwork):
-        return ["rev"] if tier == "quick" else ["rev", "roll", "mixed"]
+        return ["rev"] if tier == "quick" else ["rev", "roll", "mixed", "mixed1", "mixed2"]
     n = x.ndim
     ps = list(itertools.permutations(range(n)))[1:]
     return ps
 
 
-def run_case(mk, cs, idx, tier):
+def run_case(mk, cs, tier):
     concrete = not cs.sym
-    hx = HX(mk, f"{cs.name}: ", concrete=concrete, kind=cs.kind or ("real" if concrete and False else "cplx"))
-    hx.want_dense = False
+    hx = HX(mk, f"{cs.name}: ", concrete=concrete, kind=cs.kind or "cplx")
     cls = CLS[cs.cls]
     mk.encodes(_plain_fn(cls, cs.method))
     try:
@@ -1187,7 +1293,6 @@ def run_case(mk, cs, idx, tier):
         if msg not in P.ASSUMED:
             P.ASSUMED.append(msg)
         hx2 = HX(mk, f"{cs.name}: ", concrete=True, kind=cs.kind or "cplx")
-        hx2.want_dense = False
         _run_case_body(hx2, cs, tier)
 
 
@@ -1196,6 +1301,9 @@ def _plain_fn(cls, method):
     if isinstance(v, functools.partialmethod):
         v = v.func
     return v
+
+
+_FAILED = object()
 
 
 def _run_case_body(hx, cs, tier):
@@ -1208,13 +1316,36 @@ def _run_case_body(hx, cs, tier):
     if cs.ref == "preserve":
         before = dense_of(x, _outer(x))
     # (i) + plain result
-    r = _guarded_plain_call(hx, "(i)", x, cs.method, _fresh(args), _fresh(kwargs))
+    pkw = cs.opts.get("plain_kw", {})     # extra keywords of the plain spelling only (e.g. an explicit inplace=False)
+    r = _guarded_plain_call(hx, "(i)", x, cs.method, _fresh(args), dict(_fresh(kwargs), **pkw))
     if not cs.det:
         return
     # (ii) in-place spelling on a copy
     z = x.copy()
-    r_ = _call(z, cs.method + "_", _fresh(args), _fresh(kwargs))
-    if cs.ref is None:
+    fx = fp_any(x)
+    watched = [(f"argument {k}", a, fp_any(a)) for k, a in list(enumerate(args)) + list(kwargs.items())]
+    a2, k2 = _fresh(args), _fresh(kwargs)
+    if not cs.opts.get("args_intact_inplace", True):
+        # the in-place spelling is documented to act in place on its network arguments too: hand it copies
+        cp = lambda o: o.copy() if isinstance(o, (tc.Tensor, tc.TensorNetwork)) else o
+        a2, k2 = tuple(cp(a) for a in a2), {k: cp(v) for k, v in k2.items()}
+    try:
+        r_ = _call(z, cs.method + "_", a2, k2)
+    except P.Unsupported:
+        raise
+    except Exception as e:
+        hx.same(f"(ii) the in-place spelling accepts the arguments the plain spelling accepted "
+                f"[{cs.method}_ raised {type(e).__name__}: {str(e)[:120]}]", False, True)
+        r_ = _FAILED
+    # the copy shares its arrays with x: the in-place spelling may re-point the copy's tensors but must
+    # never write into those arrays
+    check_unchanged(hx, "(ii) network / tensor the copy was taken from, after f_(copy)", x, fx)
+    if cs.opts.get("args_intact_inplace", True):
+        for nm, a, f in watched:
+            check_unchanged(hx, f"(ii) {nm} after f_(copy)", a, f)
+    if r_ is _FAILED:
+        pass
+    elif cs.ref is None:
         compare(hx, "(ii) f(x) vs f_(copy x)", r, r_, cs.cmp, known)
     else:
         compare(hx, "(ii) f(x) vs f_(copy x) [structure]", r, r_, cs.cmp, known, data=False)
@@ -1231,7 +1362,7 @@ def _run_case_body(hx, cs, tier):
         if cs.permute_args:
             a3 = tuple(permute_any(a, "rev") for a in a3)
             k3 = {k: permute_any(v, "rev") for k, v in k3.items()}
-        rp = _guarded_plain_call(hx, f"(iii) perm {how}", xp, cs.method, a3, k3, with_copy=False)
+        rp = _guarded_plain_call(hx, f"(iii) perm {how}", xp, cs.method, a3, dict(k3, **pkw), with_copy=False)
         if cs.ref is None:
             compare(hx, f"(iii) f(perm {how} x) vs f(x)", rp, r, cs.pcmp, known, data=cs.pdata)
         else:
@@ -1239,7 +1370,7 @@ def _run_case_body(hx, cs, tier):
             _against_ref(hx, cs, f"(iii) f(perm {how} x)", rp, x, args, before)
     if isinstance(x, tc.TensorNetwork) and type(x) is tc.TensorNetwork and cs.opts.get("reinsert", True):
         xi = reinserted(x)
-        ri = _call(xi, cs.method, _fresh(args), _fresh(kwargs))
+        ri = _call(xi, cs.method, _fresh(args), dict(_fresh(kwargs), **pkw))
         if cs.ref is None:
             compare(hx, "(iii) f(reversed insertion order) vs f(x)", ri, r, "value", known)
         else:
@@ -1267,7 +1398,7 @@ def _groups():
     groups = {}
     light = {}
     for k, cs in enumerate(CASES):
-        if cs.heavy:
+        if cs.own:
             groups[f"{cs.name}"] = [k]
         else:
             light.setdefault((cs.cls, "sym" if cs.sym else "concrete"), []).append(k)
@@ -1299,7 +1430,7 @@ def pairs(mk, grp, tier):
         if tier not in cs.tiers:
             continue
         t0 = time.time()
-        run_case(mk, cs, k, tier)
+        run_case(mk, cs, tier)
         if os.environ.get("C03_TIMING"):
             print(f"  C03_TIMING {'sym' if mk.sym else 'num'} {cs.name}: {time.time() - t0:.2f}s", file=sys.stderr, flush=True)
 
@@ -1491,7 +1622,7 @@ def tensor_matmul_and_or(mk, tier):
 @obligation(PROP)
 def network_operators(mk):
     """tn * s, s * tn, tn / s, -tn, tn & tn2, tn | tn2, tn @ tn2, tn ^ all, tn >> tags and the
-    in-place forms *=, /=, &=, |=, ^=: value == reference, operands (of the plain forms) and
+    in-place forms *=, /=, &=, |=, ^=, >>=: value == reference, operands (of the plain forms) and
     copies (of both forms) intact; same results for permuted stored axes"""
     mk.encodes(tc.TensorNetwork.__mul__, tc.TensorNetwork.__rmul__, tc.TensorNetwork.__truediv__, tc.TensorNetwork.__neg__,
                tc.TensorNetwork.__and__, tc.TensorNetwork.__or__, tc.TensorNetwork.__matmul__, tc.TensorNetwork.__xor__,
@@ -1532,7 +1663,7 @@ def network_operators(mk):
             hx.same(tag + nm + ": labels", sorted(r.inds), sorted(out))
             hx.eq(tag + nm + ": value", np.transpose(r.data, tuple(r.inds.index(i) for i in out)), dense0)
         # in-place forms on a copy: the network they were copied from stays intact
-        for nm in ("*=", "/=", "&=", "|=", "^="):
+        for nm in ("*=", "/=", "&=", "|=", "^=", ">>="):
             z = x.copy()
             fx = fp_any(x)
             if nm == "*=":
@@ -1550,7 +1681,136 @@ def network_operators(mk):
                 oc = other.copy()
                 z |= oc
                 hx.eq(tag + "tn |= other", ref.tn_dense(z, ()), both)
+            elif nm == ">>=":
+                z >>= ["A", "B", "C"]
+                hx.eq(tag + "tn >>= [A, B, C]", ref.tn_dense(z, out), dense0)
             else:
                 z ^= all
                 hx.eq(tag + "tn ^= all", ref.tn_dense(z, out), dense0)
             check_unchanged(hx, tag + f"tn {nm}: network the receiver was copied from", x, fx)
+
+
+# ======================================================================================
+# reflection obligation + META
+# ======================================================================================
+
+_BINOP_NAMES = ("add", "sub", "mul", "truediv", "pow", "matmul", "and", "or", "xor", "rshift", "lshift", "floordiv", "mod")
+
+
+def reflect_operators():
+    out = []
+    for cls in (tc.Tensor, tc.TensorNetwork):
+        for n in _BINOP_NAMES:
+            for pre in ("", "r", "i"):
+                nm = f"__{pre}{n}__"
+                if nm in cls.__dict__:
+                    out.append(f"{cls.__name__}.{nm}")
+        if "__neg__" in cls.__dict__:
+            out.append(f"{cls.__name__}.__neg__")
+    return out
+
+
+OPERATORS = reflect_operators()
+_OPS_COVERED = {f"Tensor.__{p}{n}__" for n in ("add", "sub", "mul", "truediv", "pow") for p in ("", "r")} | \
+    {"Tensor.__matmul__", "Tensor.__and__", "Tensor.__or__", "Tensor.__neg__", "Tensor.__imul__", "Tensor.__itruediv__"} | \
+    {f"TensorNetwork.__{n}__" for n in ("mul", "rmul", "truediv", "neg", "and", "or", "matmul", "xor", "rshift", "imul", "itruediv",
+                                       "iand", "ior", "ixor", "irshift")}
+
+
+def _coverage():
+    by = {}
+    for cs in CASES:
+        by.setdefault((cs.cls, cs.method), []).append(cs)
+    sym, conc, skipped = [], {}, []
+    for key in PAIRS:
+        name = f"{key[0]}.{key[1]}"
+        if key not in by:
+            skipped.append(name)
+        elif any(c.sym for c in by[key]):
+            sym.append(name)
+        else:
+            conc[name] = sorted({c.why for c in by[key] if c.why})[0] if any(c.why for c in by[key]) else "concrete"
+    mixed = [f"{c}.{m}" for (c, m) in by if (c, m) not in PAIRS]
+    return sym, conc, skipped, mixed
+
+
+COV_SYM, COV_CONC, COV_SKIPPED, COV_MIXED = _coverage()
+_PER_CLASS = {}
+for _c, _m in PAIRS:
+    _PER_CLASS[_c] = _PER_CLASS.get(_c, 0) + 1
+
+
+@obligation(PROP)
+def reflection(mk):
+    """every reflected f_ is functools.partialmethod(<the very function behind f>, inplace=True)
+    with the same other bound keywords, and the plain spelling does not default to inplace=True"""
+    mk.note(f"reflected {len(PAIRS)} (f, f_) pairs on {len(_PER_CLASS)} classes: {_PER_CLASS}")
+    mk.note(f"covered {len(COV_SYM) + len(COV_CONC)} pairs: {len(COV_SYM)} on symbolic data, {len(COV_CONC)} on concrete data only")
+    mk.note("skipped: " + (", ".join(COV_SKIPPED) or "none"))
+    mk.note("concrete only: " + "; ".join(f"{k} ({v})" for k, v in COV_CONC.items()))
+    mk.note("excluded (in place by documented default): " + "; ".join(f"{c}.{n}: {w}" for c, n, w in EXCLUDED))
+    mk.note("inherited pairs whose two spellings resolve to different functions: " +
+            "; ".join(f"{c}.{n} (f_ from {o_}, f from {o})" for c, n, o_, o in MIXED))
+    mk.note("operators reflected: " + ", ".join(OPERATORS) + "; not exercised: " + (", ".join(o for o in OPERATORS if o not in _OPS_COVERED) or "none"))
+    for cn, name in PAIRS:
+        cls = CLS[cn]
+        v, pv = _lookup(cls, name + "_"), _lookup(cls, name)
+        (f_, kw_), (f, kw) = _resolved(v), _resolved(pv)
+        mk.same(f"{cn}.{name}_ is partialmethod({cn}.{name}, inplace=True)", (f_ is f, kw_), (True, kw))
+        try:
+            par = inspect.signature(f).parameters
+        except (TypeError, ValueError):
+            continue
+        if "inplace" in par:
+            mk.same(f"{cn}.{name}: inplace defaults to False", par["inplace"].default, False)
+        else:
+            mk.same(f"{cn}.{name}: accepts inplace through **kwargs", any(p.kind is p.VAR_KEYWORD for p in par.values()), True)
+    # every mixed pair found by reflection has a dynamic case
+    have = {(cs.cls, cs.method) for cs in CASES if cs.opts.get("mixed")}
+    for c, n, o_, o in MIXED:
+        mk.same(f"mixed pair {c}.{n} (or a subclass) has a dynamic case", any(m == n and issubclass(CLS[cc], CLS[c]) for cc, m in have), True)
+
+
+META = {
+    "bounds": {
+        "quick": {
+            "pairs_reflected": len(PAIRS), "pairs_per_class": _PER_CLASS,
+            "pairs_covered_symbolically": COV_SYM, "pairs_covered_on_concrete_data_only": COV_CONC, "pairs_skipped": COV_SKIPPED,
+            "inherited_pairs_with_different_spellings": [f"{c}.{n} (f_ from {o_}, f from {o})" for c, n, o_, o in MIXED],
+            "excluded": [f"{c}.{n}: {w}" for c, n, w in EXCLUDED],
+            "receivers": {k: (v.__doc__ or "").strip() for k, v in RECEIVERS.items()},
+            "arguments": "1-6 hand written argument tuples per method (see CASES)",
+            "axis_permutations": "Tensor receivers: all 5 non-trivial permutations of the 3 stored axes; networks: every tensor reversed; "
+                                 "tensor / network arguments reversed; plain networks also rebuilt with reversed insertion order",
+            "operators": OPERATORS, "operator_operands": "rank-3 x rank-3 in 4x2 stored orders, broadcast against rank-1 / rank-2, scalars",
+            "numeric": "1 numeric cross-run of every obligation on random float / complex data (fingerprints compare bytes)",
+        },
+        "thorough": {
+            "pairs_reflected": len(PAIRS), "pairs_covered_symbolically": len(COV_SYM), "pairs_covered_on_concrete_data_only": len(COV_CONC),
+            "pairs_skipped": COV_SKIPPED,
+            "axis_permutations": "networks: every tensor reversed / rolled / three mixed assignments of permutations; operators: all 6x6 stored orders",
+            "extra_cases": [cs.name for cs in CASES if cs.tiers == ("thorough",)],
+            "numeric": "2 numeric cross-runs",
+        },
+    },
+    "outside": [
+        "methods with an `inplace` keyword but no trailing-underscore twin (trace, partition, contract_cumulative, retag_sites, ...)",
+        "values of results of RNG based methods (isel 'r', rand_reduce, randomize, gauge_all_random, measure without outcome): seeded, "
+        "structure and non-mutation only under axis permutations",
+        "iterative / truncating drivers are run on concrete float data only (listed in pairs_covered_on_concrete_data_only); their results "
+        "are compared as dense values with a 1e-7 relative tolerance",
+        "gauge dependent results (QR / SVD based): under axis permutations only labels, tags, dims and the dense value over the outer labels "
+        "are compared, not the individual tensors nor which labels are flagged in left_inds",
+        "truncated compression of a loopy network under a reversed insertion order (the approximation follows the bond order)",
+        "jax / torch / cupy backends, block-sparse and fermionic arrays, Tensor.owners weak references, lazily filled private caches",
+        "floating point rounding",
+    ],
+    "assumptions": [
+        "LAPACK qr / svd / eigh return factors meeting their contracts (stubs); a routine called twice on structurally identical symbolic "
+        "input returns the same factors (LAPACK routines are deterministic functions)",
+        "left_inds=None makes no claim: under axis permutations a result may drop left_inds but two results may not flag different label sets "
+        "(stub-free methods)",
+        "labels containing quimb's rand_uuid prefix are randomly generated names: compared after canonical renaming by the positions of the "
+        "tensors they join",
+    ],
+}
